@@ -33,7 +33,8 @@ def wal_str(sexpr):
     elif isinstance(sexpr, Operator):
         txt = sexpr.value
     elif isinstance(sexpr, str):
-        sexpr = sexpr.replace("\"", "\\\"")
+        sexpr = sexpr.replace("\\", "\\\\").replace("\"", "\\\"")
+        sexpr = sexpr.replace("\n", "\\n").replace("\t", "\\t").replace("\r", "\\r")
         txt = f'"{sexpr}"'
     elif isinstance(sexpr, bool):
         txt = 'true' if sexpr else 'false'
